@@ -245,6 +245,7 @@ def cases(ctx):
     for i in range(ctx.pick(1500, 600000) // ctx.shard_count):
         older, newer = PAIRS[i % len(PAIRS)]
         gen = HistoryGen(rng, older)
+        gen.wide = i % 4 == 0
         steps = list(rng.choice(list(STATES.values())))
         for _ in range(rng.choice([5, 20, 60])):
             roll = rng.random()
